@@ -450,6 +450,9 @@ def gen_rcase(r, k):
         kind = r.choice(cand)
         if kind in ("walls", "linear", "meta", "histogram", "abf") and not scalar:
             kind = "harmonic"
+        abf_ok = [v for v in scalar if vars_[v]["kind"] in ("distance", "distz", "gyration", "angle")]   # total force available
+        if kind == "abf" and not abf_ok:
+            kind = "harmonic"
         if kind == "harmonic":
             v = r.randrange(nv)
             x = vars_[v]
@@ -468,16 +471,17 @@ def gen_rcase(r, k):
             L = ["linear {", "  name b%d" % b, "  colvars v%d" % v, "  centers 1.0", "  forceConstant 0.5", "}"]
         elif kind == "meta":
             vs = r.sample(scalar, min(len(scalar), r.choice([1, 1, 2])))
+            grids = r.choice(["on", "off"])
             L = ["metadynamics {", "  name b%d" % b, "  colvars " + " ".join("v%d" % v for v in vs), "  hillWeight 0.25", "  hillWidth 2.0",
-                 "  newHillFrequency %d" % r.choice([1, 2, 3]), "  useGrids %s" % r.choice(["on", "off"])]
-            if r.random() < 0.3:
+                 "  newHillFrequency %d" % r.choice([1, 2, 3]), "  useGrids %s" % grids]
+            if grids == "on" and r.random() < 0.4:
                 L += ["  keepHills on"]
             L += ["}"]
         elif kind == "histogram":
             vs = r.sample(scalar, min(len(scalar), r.choice([1, 2])))
             L = ["histogram {", "  name b%d" % b, "  colvars " + " ".join("v%d" % v for v in vs), "}"]
         else:
-            v = r.choice(scalar)
+            v = r.choice(abf_ok)
             L = ["abf {", "  name b%d" % b, "  colvars v%d" % v, "  fullSamples 2", "  historyFreq 0", "}"]
         biases.append({"kind": kind, "lines": L})
     use_script = bool(scalar) and r.random() < 0.3
